@@ -321,6 +321,7 @@ impl SpatialTrackBuilder {
 			playback_state_manager: PlaybackStateManager::new(None),
 			temp_buffer: vec![Frame::ZERO; internal_buffer_size],
 			internal_buffer_size,
+			sample_rate: 0,
 		};
 		let handle = SpatialTrackHandle {
 			renderer_shared,
